@@ -435,6 +435,20 @@ Theorem C18_handshake_full_fixpoint_refuted :
 Proof. exact hsx_fixpoint_refuted. Qed.
 Print Assumptions C18_handshake_full_fixpoint_refuted.
 
+(* internal/negotiation canonicalize (hello hooks): a hello of the codec's domain is its own canonical
+   form; whatever comes back is a fixed point of canonicalize and its bytes of decode-then-encode *)
+Theorem C18_canonicalize_function :
+  (forall x, wwf w_client_hello x = true -> canonicalize w_client_hello x = Some x) /\
+  (forall x, wwf w_server_hello x = true -> canonicalize w_server_hello x = Some x) /\
+  (forall x raw c, wenc w_client_hello x = Some raw -> bytes_ok raw = true ->
+     canonicalize w_client_hello x = Some c ->
+     canonicalize w_client_hello c = Some c /\ exists e, wenc w_client_hello c = Some e /\ wdec w_client_hello e = Some c) /\
+  (forall x raw c, wenc w_server_hello x = Some raw -> bytes_ok raw = true ->
+     canonicalize w_server_hello x = Some c ->
+     canonicalize w_server_hello c = Some c /\ exists e, wenc w_server_hello c = Some e /\ wdec w_server_hello e = Some c).
+Proof. exact canonicalize_hello. Qed.
+Print Assumptions C18_canonicalize_function.
+
 Example C18_full_envelope_nonvacuous :
   hsx_wf 4 (mk_hshdr 12 10 7 0 10, XServerKeyExchange (None, (3, (29, ([170], (4, (3, [187]))))))) = true /\
   hsx_unmarshal 0 [14; 0; 0; 0; 0; 5; 0; 0; 0; 0; 0; 0] = Some (mk_hshdr 14 0 5 0 0, XBase MServerHelloDone).
